@@ -101,7 +101,7 @@ fn magic_field_decl(recvs: &[Recv], r: &Recv, m: &Magic) -> (String, String) {
     let (name, base): (&str, String) = match m.kind {
         MagicKind::Ident => ("ident", if r.tr == Trait::Field { "Option<syn::Ident>".into() } else { "syn::Ident".into() }),
         MagicKind::Vis => ("vis", "syn::Visibility".into()),
-        MagicKind::Generics => ("generics", "syn::Generics".into()),
+        MagicKind::Generics => ("generics", if m.own_generics { "::darling::ast::Generics<::darling::ast::GenericParam>".into() } else { "syn::Generics".into() }),
         MagicKind::Ty => ("ty", "syn::Type".into()),
         MagicKind::Bounds => ("bounds", "Vec<syn::TypeParamBound>".into()),
         MagicKind::Default => ("default", "Option<syn::Type>".into()),
